@@ -6,11 +6,13 @@ Line-protocol driver (core-only, compiled).  One request line
 `bad-op` when the line cannot be understood (never a default value).
 -/
 import GeomVerif.Driver.C01
+import GeomVerif.Driver.C02
 
 open GeomVerif GeomVerif.Wire
 
 def dispatch (op : String) (inp go : Sexp) : Option Reply :=
   if op.startsWith "C01." then Driver.C01.handle op inp go
+  else if op.startsWith "C02." then Driver.C02.handle op inp go
   else none
 
 def handleLine (line : String) : String :=
